@@ -12,6 +12,150 @@ from .c02 import final_ctor
 from .c16 import _written_field
 
 
+def rule_pair_written_together(eng, rep, rule="C11-1c.whoever-can-write-the-labels-can-write-the-matrix-and-vice-versa"):
+    """Effect summaries over the call graph inside Model: for every method, 'may write model_jac_eval_nums' and 'may write model_jac' (directly or through the Model
+    methods it calls) must coincide.  A method that can refresh the labels without recomputing the Jacobian (or the reverse) leaves a matrix paired with the
+    evaluation numbers of another point set."""
+    model = eng.prog.cls("Model")
+    direct = {}
+    for m in model.methods.values():
+        sn = m.posparams[0] if m.posparams else None
+        w = set()
+        for node in eng.prog.own_nodes(m):
+            tg = node.targets if isinstance(node, ast.Assign) else ([node.target] if isinstance(node, ast.AugAssign) else [])
+            for t in tg:
+                f = _written_field(t, sn)
+                if f in ("model_jac", "model_jac_eval_nums"):
+                    w.add(f)
+        direct[m.fid] = w
+    may = dict((k, set(v)) for k, v in direct.items())
+    changed = True
+    while changed:
+        changed = False
+        for m in model.methods.values():
+            for ci in eng.calls_in(m):
+                for t in ci.targets:
+                    if t.fid in may and not may[t.fid] <= may[m.fid]:
+                        may[m.fid] |= may[t.fid]
+                        changed = True
+    n = 0
+    for m in sorted(model.methods.values(), key=lambda f: f.qualname):
+        if m.qualname.endswith(".__init__") or not may[m.fid]:
+            continue
+        callers = eng.res.callers.get(m.fid, [])
+        if callers and all(ci.caller.cls == "Model" for ci in callers):
+            continue          # a private step of a Model method: its effect is part of its callers' summaries
+        n += 1
+        site = eng.where(m)
+        if may[m.fid] == {"model_jac", "model_jac_eval_nums"}:
+            rep.ok(rule, site, "%s can write both the Jacobian and its labels" % m.qualname, nontrivial=bool(direct[m.fid]))
+        else:
+            have = sorted(may[m.fid])[0]
+            miss = "model_jac" if have == "model_jac_eval_nums" else "model_jac_eval_nums"
+            via = [t.qualname for ci in eng.calls_in(m) for t in ci.targets if t.fid in may and have in may[t.fid]]
+            rep.bad(rule, site, "%s|writes-%s-without-%s" % (m.fid, have, miss),
+                    "%s can write Model.%s%s but never Model.%s: the returned Jacobian is then paired with the evaluation numbers of a different point set"
+                    % (m.qualname, have, (" (through %s)" % via[0]) if via and have not in direct[m.fid] else "", miss))
+    rep.require_count(rule, "Model methods that can write the Jacobian or its labels", n, 1)
+
+
+def rule_observers_do_not_modify_solver_state(eng, rep, rule="C11-6.recording-code-does-not-modify-what-it-records"):
+    """The diagnostic recorder is an observer: it reads the controller / model.  An in-place operation (augmented assignment, element store) on a value it obtained
+    from them -- e.g. `jac /= scale` on the Jacobian handed out by get_final_results(), which is the saved slot itself -- changes the run it is recording."""
+    di = eng.prog.cls("DiagnosticInfo")
+    n = 0
+    for m in di.methods.values():
+        sn = m.posparams[0] if m.posparams else None
+        foreign_params = [p for p in m.all_params if p != sn]
+        if not foreign_params:
+            continue
+        cfg = eng.cfg(m)
+
+        def rooted_in_foreign(e, at, depth=3):
+            """does the value of e come out of one of the foreign parameters (attribute chain, call on it, unpacking of such a call)?"""
+            for sub in ast.walk(e):
+                if isinstance(sub, ast.Name):
+                    if sub.id in foreign_params:
+                        return True
+                    if depth > 0 and sub.id != sn:
+                        try:
+                            defs = cfg.defs_reaching(at, sub.id)
+                        except Exception:
+                            defs = []
+                        for dn in defs:
+                            ds = cfg.ast_of(dn)
+                            if isinstance(ds, ast.Assign) and rooted_in_foreign(ds.value, ds, depth - 1):
+                                # copies / arithmetic results are the recorder's own objects
+                                v = ds.value
+                                fresh = isinstance(v, ast.BinOp) or (isinstance(v, ast.Call) and ekey(v.func).split(".")[-1] in ("copy", "array", "remove_scaling", "norm", "sqrt", "max", "min", "float", "int", "len", "sumsq"))
+                                if not fresh:
+                                    return True
+            return False
+
+        for node, d in cfg.g.nodes(data=True):
+            st = d["ast"]
+            if d["kind"] != "stmt":
+                continue
+            tgt = None
+            if isinstance(st, ast.AugAssign):
+                tgt = st.target
+            elif isinstance(st, ast.Assign) and isinstance(st.targets[0], ast.Subscript):
+                tgt = st.targets[0]
+            if tgt is None:
+                continue
+            root = tgt
+            while isinstance(root, (ast.Subscript, ast.Attribute)):
+                root = root.value
+            if not isinstance(root, ast.Name) or root.id == sn:
+                continue
+            n += 1
+            if root.id in foreign_params or rooted_in_foreign(ast.Name(id=root.id, ctx=ast.Load()), st):
+                rep.bad(rule, eng.where(m, st), "%s|observer-modifies-solver-state|%s" % (m.fid, short(st, 30)),
+                        "`%s` modifies in place a value the recorder obtained from the controller / model: recording an iteration changes the solver's own data (here possibly the saved Jacobian, which get_final_results hands out uncopied)" % short(st, 60))
+            else:
+                rep.ok(rule, eng.where(m, st), "in-place operation on the recorder's own object", nontrivial=False)
+    rep.ok(rule, "dfols/diagnostic_info.py:DiagnosticInfo", "%d in-place operations on non-self objects inspected in the recorder" % n)
+
+
+def rule_design_matrix_from_evaluated_positions(eng, rep, rule="C11-5.interpolation-system-is-built-from-the-positions-that-were-evaluated"):
+    """A stored point is evaluated at its clamped position (Model.xpt applies the bounds on read; growing-phase and perturbed steps store raw positions that can lie
+    outside the box).  The fit names those evaluations, so the directions that feed the interpolation system must come through the same accessor: in xpt_directions
+    and interpolation_matrix every position is xpt(k) / xopt() (or an expression clamped against sl / su), never a raw read of the points array."""
+    model = eng.prog.cls("Model")
+    n = 0
+    for name in ("xpt_directions", "interpolation_matrix"):
+        m = model.methods.get(name)
+        if m is None:
+            raise AnalysisError("anchor method Model.%s vanished" % name)
+        sn = m.posparams[0]
+        raw = []
+        for node in eng.prog.own_nodes(m):
+            if isinstance(node, ast.Attribute) and node.attr == "points" and isinstance(node.value, ast.Name) and node.value.id == sn and isinstance(node.ctx, ast.Load):
+                # inside a clamp against the relative bounds?
+                cur, clamped = node, False
+                for _ in range(8):
+                    cur = eng.prog.parent.get(id(cur))
+                    if cur is None:
+                        break
+                    if isinstance(cur, ast.Call) and ekey(cur.func).split(".")[-1] in ("minimum", "maximum", "clip") and any(x in ekey(cur) for x in (".sl", ".su")):
+                        clamped = True
+                        break
+                if not clamped:
+                    raw.append(node)
+        n += 1
+        if raw:
+            st = eng.prog.stmt_of(raw[0])
+            rep.bad(rule, eng.where(m, st), "%s|raw-points-in-design-matrix" % m.fid,
+                    "`%s` reads the stored positions without the bounds applied on read: points stored outside the box were evaluated at their clamped position, so the fit goes through positions that were never evaluated" % short(st, 60))
+        else:
+            uses_accessor = any(isinstance(c, ast.Call) and ekey(c.func).split(".")[-1] in ("xpt", "xopt", "xpt_directions") for c in eng.prog.own_nodes(m))
+            if uses_accessor:
+                rep.ok(rule, eng.where(m), "%s takes every position through xpt / xopt (bounds applied on read)" % m.qualname)
+            else:
+                rep.unknown(rule, eng.where(m), "%s neither reads the points array nor calls the accessors" % m.qualname)
+    rep.require_count(rule, "functions feeding the interpolation system", n, 2)
+
+
 def rule_together(eng, rep, rule="C11-1.matrix-and-labels-are-produced-and-travel-together"):
     im = eng.fn("model.Model.interpolate_mini_models_svd")
     cfg = eng.cfg(im)
@@ -37,6 +181,9 @@ def rule_together(eng, rep, rule="C11-1.matrix-and-labels-are-produced-and-trave
                         solved = n
     site = eng.where(im)
     if solved is None or len(lab_nodes) != 1:
+        if any(o.verdict == "violated" and o.rule.startswith("C11-1c") for o in rep.obs):
+            rep.note(rule, site, "the label snapshot is not taken next to the Jacobian assignment; the pairing is judged by C11-1c (violated)")
+            return
         rep.unknown(rule, site, "cannot find the Jacobian assignment from the solved system / the label snapshot (found %d snapshot sites)" % len(lab_nodes))
     else:
         lab = lab_nodes[0]
@@ -210,6 +357,9 @@ def run(eng, rep):
     rep.explain('Also decided: Jacobian and labels come from the same record at the final selection (C11-1b).')
     rep.not_decided += ["equality with an independent fit / 'equals A for linear residuals' (numerical)"]
     A = anchors(eng)
+    rule_pair_written_together(eng, rep)
+    rule_observers_do_not_modify_solver_state(eng, rep)
+    rule_design_matrix_from_evaluated_positions(eng, rep)
     rule_together(eng, rep)
     rule_snapshot_is_copy(eng, rep)
     rule_roles(eng, rep, A, rule="C11-3.labels-are-point-numbers")
